@@ -194,6 +194,15 @@ Proof.
   unfold both in Hb. rewrite H1, H2 in Hb. discriminate.
 Qed.
 
+Lemma reaches_def : forall G n t, reaches G n t = mem n (reach_iter G (length G) [t]).
+Proof. reflexivity. Qed.
+
+Lemma mem_In : forall n l, mem n l = true -> In n l.
+Proof.
+  intros n l H. unfold mem in H. apply existsb_exists in H. destruct H as [x [Hin Heq]].
+  apply Nat.eqb_eq in Heq. subst x. exact Hin.
+Qed.
+
 (* ---------------------------------------------------------------------------------------------
    The hypotheses are satisfiable and the rules bite: small examples.
    node 0 = struct A { next: Option<Box<A>>, name: String }   (recursive, fine)
